@@ -294,6 +294,14 @@ theorem c04_overlapping_calls_keep_balances_nonneg (o1 o2 : Nat → Obs) (sys : 
     Sys.WF (race cls o1 o2 sys n a b).1 :=
   race_wf cls o1 o2 sys n a b wf
 
+/-- The caller may assign the store's public attributes between calls (`store.atp = v`, `store.max_debt = v`, ...: any
+    non-negative int).  That is a change of configuration, not a ledger operation - and no theorem above depends on how the
+    configuration came about: the colony stays well-formed, so balances, debt and capacities stay `>= 0` along every history
+    that follows (and with them every other history theorem, all stated from an arbitrary well-formed colony). -/
+theorem c04_history_after_public_assignment (sys : Sys) (i : Nat) (s : Store) (f : Field) (v : Nat) (ops : List Op)
+    (wf : Sys.WF sys) (h : sys[i]? = some s) : Sys.WF (run cls adv k (sys.set i (s.assign f v)) ops).1 :=
+  c04_balances_nonneg cls adv k _ ops (set_wf wf i _ (assign_wf s f v (wf i s h)))
+
 /-- Overlapping calls create nothing, and each spend that reports success is paid for: without regeneration among the
     two calls, what the colony holds afterwards plus the cost of the spends that reported success is at most what it held. -/
 theorem c04_overlapping_calls_create_nothing (o1 o2 : Nat → Obs) (sys : Sys) (n : Nat) (a b : Op) (wf : Sys.WF sys)
